@@ -27,8 +27,8 @@ import gen_fault
 LEVEL = "fault_enumeration"
 RULE = ("for each scenario of the fixed catalogue: one clean run counts the N allocation attempts "
         "(coap_malloc_type + coap_realloc_type, ld --wrap), then N runs fail exactly the k-th "
-        "attempt, k = 1..N (thorough: also every pair k1 < k2 <= N(k1), and the singles again under "
-        "ASan); evaluations = runs of a scenario with a fault pattern + PDU-layer tie cases; a run "
+        "attempt, k = 1..N (also every pair k1 < k2 <= N(k1): quick for the scenarios with N <= 100, "
+        "thorough for all; thorough runs the singles again under ASan); evaluations = runs of a scenario with a fault pattern + PDU-layer tie cases; a run "
         "is non-trivial when the fault was actually injected (the k-th attempt was reached) and "
         "the scenario went on to its tear-down; distinct = distinct (variant, scenario, k1, k2)")
 
@@ -42,7 +42,7 @@ MEMTAG = ["STRING", "ATTRIBUTE_NAME", "ATTRIBUTE_VALUE", "PACKET", "NODE", "CONT
           "OSCORE_REC", "OSCORE_EX", "OSCORE_EP", "OSCORE_BUF", "MEM_TAG_LAST"]
 
 HARNESS_FUNCS = re.compile(r"^(sc_|child_main|main$|world_|mk|send_tracked|simple_exchange|canary|"
-                           r"finish_with|prologue|pump|vn_|run_fa|h_|on_|dump_|\?\?|_start|__libc)")
+                           r"finish_with|prologue|pump|vn_|run_fa|h_|on_|dump_|route_lkd|one_request|__wrap_|\?\?|_start|__libc)")
 
 
 RECEIVE_DROP = re.compile(r"^(coap_pdu_init<coap_handle_dgram|coap_pdu_resize<coap_pdu_parse<coap_handle_dgram|"
@@ -272,7 +272,7 @@ def enumerate_variant(run, model, exe, variant, scen_list, pairs, stats, env=Non
         outs = run_chunks(exe, lines, env=env)
         ds = [parse_result(o) for o in outs]
         # --- pairs: k2 ranges over the attempts of the run that failed k1
-        if pairs:
+        if pairs is True or (pairs and N <= pairs):
             plines = []
             for (k1, kk2), d in zip(list(cases), ds):
                 if kk2 or k1 > N:
@@ -367,7 +367,8 @@ def enumerate_variant(run, model, exe, variant, scen_list, pairs, stats, env=Non
                 run.hist("failure_kind", kind)
             run.hist("site_type", MEMTAG[last["type"]] if last and last["type"] < len(MEMTAG) else "?")
         info[variant] = {"N": N, "runs": len(cases), "corpus_cases": ncorpus, "exhaustive": True,
-                         "pairs": bool(pairs), "injected": ninj, "failing_runs": nfail}
+                         "pairs": bool(pairs is True or (pairs and N <= pairs)), "injected": ninj,
+                         "failing_runs": nfail}
         run.hist("scenario_runs", sc)
         if len(run.cov["samples"]) < 6:
             j = min(len(lines) - 1, N // 2)
@@ -527,7 +528,8 @@ def main(run):
     scen = out[0].split()
     stats = {}
     thorough = run.tier == "thorough"
-    fails = enumerate_variant(run, model, exe, "base", scen, thorough, stats)
+    # pairs: thorough = every scenario; quick = the scenarios with at most 100 attempts
+    fails = enumerate_variant(run, model, exe, "base", scen, True if thorough else 100, stats)
     nv = report(run, fails, "base")
     if thorough:
         exe_a = vlib.build_driver("h_fault", ["h_fault.c"], "asan", extra=["-no-pie"], wraps=WRAPS)
